@@ -185,8 +185,15 @@ def plan(S, prop, mode, tier, avoid):
     for _ in range(nops):
         k = wpick(r, [("func", 6), ("data", 5), ("rule", 3), ("poly", 3), ("func_raises", 1.2),
                       ("bad_npts", 0.8), ("bad_range", 0.8), ("func2", 2 if "q2" in cfg else 0),
-                      ("qgauss", 0.7)])
+                      ("qgauss", 0.7), ("selftest", 0.5)])
         op = {"k": k}
+        if k == "selftest":
+            # the object's own demonstration methods (test_gauss_func / test_gauss_data): ordinary calls on the same
+            # object, with a point count of their own
+            op.update({"which": pick(r, ["func", "data"]), "npts": npts()})
+            explicit_seen = True
+            last_npts = op["npts"]
+            follow = None
         if k in ("func", "data", "func_raises", "bad_range", "qgauss"):
             # npts: explicit (changing or repeated) or omitted while nothing explicit was passed
             can_omit = (cfg["ctor_npts"] is not None) and not explicit_seen and k != "qgauss"
@@ -529,6 +536,23 @@ def execute(script, run, env):
             run.event(0, k, "%d,%r" % (x.size, op["npts"]), "ok", adigest(got))
             if judge:
                 _judge_data(run, integrate, x, y, n_eff, got, feats, k)
+        elif k == "selftest":
+            import esutil.integrate.util as _iu
+            import io as _io
+            saved_out = _iu.stdout
+            _iu.stdout = _io.StringIO()
+            try:
+                (qg.test_gauss_func if op["which"] == "func" else qg.test_gauss_data)(npts=op["npts"])
+                out = "ok"
+            except Exception as e:
+                out = "error(%s)" % type(e).__name__
+            finally:
+                _iu.stdout = saved_out
+            run.fault("object_ran_its_own_demonstration")
+            cur = op["npts"]
+            ncalls += 1
+            last_outcome = "ok" if out == "ok" else "raised"
+            run.event(0, k, "%s,%r" % (op["which"], op["npts"]), out)
         elif k == "rule":
             if not judge:
                 continue
